@@ -71,6 +71,35 @@ def run(ctx, b, broken):
                         su.corr(text, impl_parse(text, src), filename=src, tag="preprocessed fake headers")
             if len(ctx.samples) < 3:
                 ctx.sample({"header": h, "dialects": dialects})
+        # order dependence, searched directly: a macro that header A leaves defined and that occurs as an identifier in the
+        # preprocessed text of header B changes B when A comes first - every such ordered pair is tried
+        import subprocess
+
+        def cpp_out(text, extra):
+            srcp = os.path.join(tmp, "probe.c")
+            with open(srcp, "w") as f:
+                f.write(text)
+            p = subprocess.run(["cpp", "-std=c99", "-I" + fake] + extra + [srcp], capture_output=True, text=True, timeout=60)
+            return p.stdout if p.returncode == 0 else ""
+        builtin = set(re.findall(r"^#define (\w+)", cpp_out("", ["-dM"]), re.M))
+        macros_after, idents = {}, {}
+        for h in headers:
+            macros_after[h] = set(re.findall(r"^#define (\w+)", cpp_out(f"#include <{h}>\n", ["-dM"]), re.M)) - builtin
+            body = "\n".join(l for l in cpp_out(f"#include <{h}>\n", []).split("\n") if not l.startswith("#"))
+            idents[h] = set(re.findall(r"\b[A-Za-z_]\w*\b", re.sub(r'"(?:[^"\\\n]|\\.)*"', '""', body)))
+        pairs = [(a, b_) for a in headers for b_ in headers if a != b_ and macros_after[a] & idents[b_]]
+        ctx.notes["order_sensitive_pairs"] = len(pairs)
+        for a, b_ in (pairs if len(pairs) <= 400 or ctx.tier == "thorough" else ctx.rng.sample(pairs, 400)):
+            src = os.path.join(tmp, "pair.c")
+            with open(src, "w") as f:
+                f.write(f"#include <{a}>\n#include <{b_}>\n")
+            ctx.evaluations += 1
+            ctx.count("suite:ordered-pairs")
+            ctx.nontriv(("pair", a, b_))
+            try:
+                pycparser.parse_file(src, use_cpp=True, cpp_args=["-std=c99", "-I" + fake])
+            except Exception as e:
+                su.violation(f"#include <{a}>\n#include <{b_}>", f"{b_} included after {a} fails: {type(e).__name__}: {str(e)[:120]} (macros of the first that occur in the second: {sorted(macros_after[a] & idents[b_])[:4]})")
         # typedef names usable after including headers in random subsets / orders
         for _ in range(20 if ctx.tier == "quick" else 300):
             sub = ctx.rng.sample(headers, ctx.rng.randint(1, 6))
